@@ -17,7 +17,13 @@ ZeroOwed(e) ==
   /\ e.ok = 1
   /\ e.usesbuf = 1 => M!MaxDepthReached(Expand(e.warm)) >= M!MaxDepthReached(Input(e))
   /\ e.usesdst = 1 => e.dstcap - e.dstlen >= InputLen(e)
-AllocClauses(e) == F(ZeroOwed(e) => e.allocs = 0, "C19", "allocates_" \o e.fn) \cup F(e.panics = 0, "C10", "panic")
+\* the Buffer may have been warmed by another function than the one measured (field warmfn); the property
+\* speaks of "a Buffer that has already been used on a document at least as deeply nested" whatever used it
+AllocClauses(e) ==
+  F(ZeroOwed(e) => e.allocs = 0, "C19",
+    IF e.warmfn \in {"", "SkipValue"} THEN "allocates_" \o e.fn
+    ELSE "allocates_" \o e.fn \o "_after_warmup_by_" \o e.warmfn)
+  \cup F(e.panics = 0, "C10", "panic")
 
 \* ---- C20 ----  all byte counts in units of 16 bytes
 K16 == 512      \* 8192 bytes of heap per input byte
